@@ -27,7 +27,7 @@ def rel(a, b):
 def oracle_zero(inp):
     """distance 0 returns the field unchanged: no padding, and pad-then-crop"""
     rng = np.random.default_rng(inp['fseed'])
-    u = W.cfield(rng, tuple(inp['shape']))
+    u = W.typed(W.cfield(rng, tuple(inp['shape'])), inp['api'], inp.get('dtype'))
     out = []
     if inp['api'] == 'torch':
         for zp, nm in (((False, False, False), 'zero_distance_identity'), ((True, False, True), 'zero_distance_identity_pad_crop')):
@@ -37,7 +37,7 @@ def oracle_zero(inp):
             out.append((nm, ok, 'input field', {'shape': list(r.shape), 'max_rel_err': rel(r, u) if list(r.shape) == list(inp['shape']) else None}))
     else:
         r = W.n_prop(u, inp['method'], 0.0, inp['dx'], inp['lam'])
-        out.append(('zero_distance_identity', rel(r, u) <= 1e-10, 'input field', rel(r, u)))
+        out.append(('zero_distance_identity', rel(r, u) <= (1e-10 if W.tol_key(inp) == 'numpy' else 1e-5), 'input field', rel(r, u)))
     return out
 
 
@@ -66,9 +66,9 @@ def on_band(x, M):
 def oracle_compose(inp):
     """z then -z restores the field; z1 then z2 equals z1+z2; a whole program equals one step by the sum"""
     rng = np.random.default_rng(inp['fseed'])
-    u = W.cfield(rng, tuple(inp['shape']))
+    u = W.typed(W.cfield(rng, tuple(inp['shape'])), inp['api'], inp.get('dtype'))
     P = (lambda x, z: W.t_prop(x, inp['method'], z, inp['dx'], inp['lam'])) if inp['api'] == 'torch' else (lambda x, z: W.n_prop(x, inp['method'], z, inp['dx'], inp['lam']))
-    tol = TOL[inp['api']]
+    tol = TOL[W.tol_key(inp)]
     zs = inp['zs']
     out = []
     z = zs[0]
@@ -133,7 +133,7 @@ def gen_inputs(ctx, n):
         for w in sorted({h, h + 1, max(2, h - 3), (7 * h) % 11 + 2}):
             for api in ('torch', 'numpy'):
                 m = METHODS[(h + w) % 3]
-                out.append(('zero', {'api': api, 'method': m, 'shape': [h, w], 'lam': 0.5, 'dx': rng.choice([0.36, 1.0, 4.0]), 'fseed': rng.randrange(10 ** 6)}))
+                out.append(('zero', {'api': api, 'method': m, 'shape': [h, w], 'lam': 0.5, 'dx': rng.choice([0.36, 1.0, 4.0]), 'fseed': rng.randrange(10 ** 6), 'dtype': W.DTYPES[api][(h + 2 * w) % 5]}))
     sz = W.sizes(ctx)
     for i in range(n):
         shape = list(sz[(i * 5 + 3) % len(sz)])
@@ -144,7 +144,7 @@ def gen_inputs(ctx, n):
         for api in ('torch', 'numpy'):
             for m in METHODS:
                 shp = ([2] + shape) if (api == 'torch' and i % 4 == 0) else shape
-                out.append(('compose', {'api': api, 'method': m, 'shape': shp, 'lam': lam, 'dx': dx, 'zs': zs, 'fseed': rng.randrange(10 ** 6)}))
+                out.append(('compose', {'api': api, 'method': m, 'shape': shp, 'lam': lam, 'dx': dx, 'zs': zs, 'fseed': rng.randrange(10 ** 6), 'dtype': W.DTYPES[api][(i + METHODS.index(m)) % 5]}))
         if i % 3 == 0 and min(shape) >= 5:      # torch zero_pad reads 2-D arrays with a side below 5 as channel-last (property C08 starts at 5)
             lams = [lam, lam * 1.15, lam * 1.3]
             off = rng.uniform(2, 8)
